@@ -675,4 +675,190 @@ func writersRun(r *vh.Runner, c *vh.Case, i int) {
 var _ = io.EOF
 var _ = os.ErrDeadlineExceeded
 
-func genC15(r *vh.Runner) {}
+func genC15(r *vh.Runner) {
+	n := r.Pick(120, 3000)
+	for i := 0; i < n; i++ {
+		r.Case(fmt.Sprintf("roam/%d", i), map[string]any{"history": i}, func(c *vh.Case) {
+			c.Bubble(func() { roamRun(r, c, i) })
+		})
+	}
+}
+
+// roamRun: one session; the "mover" end changes its source address and the
+// adversary sends forged, corrupted and replayed packets from third
+// addresses; after every step the "follower" end writes one message and the
+// wire log shows where it went.
+func roamRun(r *vh.Runner, c *vh.Case, i int) {
+	rng := vh.NewRand(r.Seed, "c15", i)
+	w, sessions, ok := setup(r, c, rng, 1)
+	if !ok {
+		teardown(w, sessions)
+		return
+	}
+	defer teardown(w, sessions)
+	s := sessions[0]
+	serverFollows := rng.Bool()
+	role := "client-follows-server"
+	var follower, mover mconn
+	var moverEP, followerEP *simnet.Endpoint
+	if serverFollows {
+		role = "server-follows-client"
+		follower, mover = s.h, s.cl
+		moverEP, followerEP = s.ep, w.SrvEP
+	} else {
+		follower, mover = s.cl, s.h
+		moverEP, followerEP = w.SrvEP, s.ep
+	}
+	followerAddr := followerEP.Source()
+	expected := moverEP.Source()
+	var lastGenuine []byte // a genuine packet already delivered
+	third := func() *net.UDPAddr { return simnet.Addr(50000+rng.Intn(5000), 2000+rng.Intn(60000)) }
+	seq := uint32(0)
+	var history []string
+
+	// where does the follower send now?
+	probe := func(step string) bool {
+		mark := w.Net.LogLen()
+		seq++
+		if err := follower.WriteMsg(build(r.Seed, msgID{0, 9, 9, seq}, hdrLen+8)); err != nil {
+			c.Violate("C15:follower-cannot-write:"+role, map[string]any{"step": step, "err": err.Error(), "history": history})
+			return false
+		}
+		bub.Settle(5 * time.Millisecond)
+		dst := ""
+		for _, ev := range w.Net.LogSince(mark) {
+			if ev.Kind == "tx" && ev.Src == followerAddr.String() {
+				dst = ev.Dst
+			}
+		}
+		r.Count("evaluations", 1)
+		r.Count("steps:"+step, 1)
+		if dst != expected.String() {
+			sig := "C15:traffic-redirected-by:" + step
+			if step == "genuine-from-new-address" || step == "genuine-first-delivered-via-other-address" {
+				sig = "C15:address-not-followed-after:" + step
+			}
+			c.Violate(sig+":"+role, map[string]any{"step": step, "sent_to": dst, "expected": expected.String(), "history": history})
+			return false
+		}
+		return true
+	}
+	// genuine packet with a delivery plan
+	genuine := func(plan string) {
+		src := moverEP.Source()
+		t := third()
+		w.Net.SetPolicy(func(d *simnet.Datagram) []simnet.Delivery {
+			if !sameUDP(d.Src, src) || len(d.Data) < 16 || d.Data[0] != 0x10 {
+				return []simnet.Delivery{{Data: d.Data, Src: d.Src, Dst: d.Dst, Tag: "genuine"}}
+			}
+			lastGenuine = append([]byte(nil), d.Data...)
+			switch plan {
+			case "via-other-address":
+				return []simnet.Delivery{{Data: d.Data, Src: t, Dst: d.Dst, Tag: "genuine-first-via-third"}}
+			case "flipped-copy-first":
+				m, _ := corrupt(rng, d.Data)
+				return []simnet.Delivery{{Data: m, Src: t, Dst: d.Dst, Tag: "corrupt"}, {Data: d.Data, Src: d.Src, Dst: d.Dst, Tag: "genuine"}}
+			case "replayed-from-third":
+				return []simnet.Delivery{{Data: d.Data, Src: d.Src, Dst: d.Dst, Tag: "genuine"}, {Data: d.Data, Src: t, Dst: d.Dst, Tag: "replay"}}
+			}
+			return []simnet.Delivery{{Data: d.Data, Src: d.Src, Dst: d.Dst, Tag: "genuine"}}
+		})
+		seq++
+		mover.WriteMsg(build(r.Seed, msgID{0, 8, 8, seq}, hdrLen+rng.Intn(64)))
+		bub.Settle(5 * time.Millisecond)
+		w.Net.SetPolicy(nil)
+		// the follower's peer address is now the source of this genuine,
+		// first-delivered packet
+		if plan == "via-other-address" {
+			expected = t
+			w.Net.Alias(moverEP, t) // so that the follower's traffic still reaches the mover
+		} else {
+			expected = src
+		}
+	}
+	steps := 12 + rng.Intn(25)
+	genuine("plain")
+	if !probe("genuine-from-current-address") {
+		return
+	}
+	for k := 0; k < steps; k++ {
+		step := ""
+		switch rng.Intn(10) {
+		case 0, 1:
+			step = "genuine-from-new-address"
+			na := third()
+			moverEP.SetSource(na)
+			genuine("plain")
+		case 2:
+			step = "genuine-from-current-address"
+			genuine("plain")
+		case 3:
+			step = "forged-from-third-address"
+			pkt := rng.Bytes(16 + 32 + rng.Intn(80))
+			pkt[0], pkt[1], pkt[2], pkt[3] = 0x10, 0, 0, 0
+			copy(pkt[4:8], s.id[:])
+			if lastGenuine != nil && rng.Bool() { // plausible counter: next one
+				binary.BigEndian.PutUint64(pkt[8:], binary.BigEndian.Uint64(lastGenuine[8:16])+1)
+			}
+			w.Net.Inject(simnet.Delivery{Data: pkt, Src: third(), Dst: followerAddr, Tag: "forged"})
+		case 4:
+			step = "bit-flipped-copy-from-third-address"
+			genuine("flipped-copy-first")
+		case 5:
+			step = "replay-from-third-address"
+			genuine("replayed-from-third")
+		case 6:
+			step = "old-replay-from-third-address"
+			if lastGenuine != nil {
+				w.Net.Inject(simnet.Delivery{Data: lastGenuine, Src: third(), Dst: followerAddr, Tag: "replay"})
+			}
+		case 7:
+			step = "forged-control-from-third-address"
+			pkt := rng.Bytes(16 + 33)
+			pkt[0], pkt[1], pkt[2], pkt[3] = 0x80, 0, 0, 0
+			copy(pkt[4:8], s.id[:])
+			pkt[16] = 0x01
+			w.Net.Inject(simnet.Delivery{Data: pkt, Src: third(), Dst: followerAddr, Tag: "forged-control"})
+		case 8:
+			step = "genuine-first-delivered-via-other-address"
+			genuine("via-other-address")
+		default:
+			step = "replay-older-than-window"
+			old := lastGenuine
+			for q := 0; q < 460; q++ {
+				seq++
+				mover.WriteMsg(build(r.Seed, msgID{0, 8, 8, seq}, hdrLen))
+			}
+			expected = moverEP.Source() // 460 genuine fresh packets from the mover's own address
+			bub.Settle(5 * time.Millisecond)
+			// drain so that the receive queue does not fill up
+			buf := make([]byte, 4096)
+			for {
+				follower.SetReadDeadline(time.Now().Add(time.Millisecond))
+				if _, err := follower.ReadMsg(buf); err != nil {
+					break
+				}
+			}
+			follower.SetReadDeadline(time.Time{})
+			if old != nil {
+				w.Net.Inject(simnet.Delivery{Data: old, Src: third(), Dst: followerAddr, Tag: "replay-old"})
+			}
+		}
+		bub.Settle(5 * time.Millisecond)
+		history = append(history, step)
+		if !probe(step) {
+			return
+		}
+		// white-box: the recorded remote address agrees
+		if serverFollows {
+			if ra := s.h.VerifSession().Remote; ra == nil || ra.String() != expected.String() {
+				c.Violate("C15:recorded-address-differs:"+role, map[string]any{"recorded": fmt.Sprint(ra), "expected": expected.String(), "history": history})
+				return
+			}
+		}
+	}
+	r.Nontrivial(fmt.Sprintf("roam|%d|%s|%v", i, role, history))
+	if i < 2 {
+		r.Sample(map[string]any{"kind": "roaming-history", "role": role, "steps": history})
+	}
+}
